@@ -13,6 +13,83 @@ fn multi_level(n: usize) -> bool {
     n >= 3 && !n.is_power_of_two() && !(n - 1).is_power_of_two()
 }
 
+/// Leaf values an implementation is tempted to use as "empty slot" / "initial state" markers:
+/// 32 zero bytes (the default midstate), the SHA-256 initial state, 32 0xff bytes.
+fn sentinel(k: usize) -> ([u8; 32], &'static str) {
+    match k {
+        0 => ([0u8; 32], "zero"),
+        1 => (r::state_bytes(&r::IV), "sha256-iv"),
+        _ => ([0xffu8; 32], "ones"),
+    }
+}
+
+/// up to which leaf count the lists of the purity probe are also compared with the reference
+const PURITY_REF_MAX: usize = 6100;
+/// above this count the purity probe leaves out the (2n+1)-leaf call
+const PURITY_BIG_MAX: usize = 10_000;
+
+/// library root == definitional root, nothing else (used for the patterned lists)
+fn check_plain(leaves: &[[u8; 32]], what: &str, ctx: &mut Ctx) -> R {
+    let want = r::fast_merkle_root(leaves);
+    let got = lib_root(leaves)?;
+    ctx.eval();
+    ensure_eq!(hex(&got), hex(&want), "fast_merkle_root of {} leaves ({}) differs from the definitional tree", leaves.len(), what);
+    Ok(())
+}
+
+/// The root is a function of the list alone: a call on a longer list and one on a shorter list
+/// (which an implementation with scratch state shared between calls would remember) must not
+/// change the answer for `leaves`. Every expected value comes from the reference.
+fn purity_probe(leaves: &[[u8; 32]], want: &[u8; 32], ctx: &mut Ctx) -> R {
+    let n = leaves.len();
+    if n == 0 {
+        return Ok(());
+    }
+    if n <= PURITY_BIG_MAX {
+        // 2n+1 leaves: one more level than `leaves` occupies
+        let mut big: Vec<[u8; 32]> = Vec::with_capacity(2 * n + 1);
+        big.extend_from_slice(leaves);
+        big.extend(leaves.iter().map(|l| {
+            let mut x = *l;
+            x[0] ^= 0x5a;
+            x
+        }));
+        big.push(leaves[n - 1]);
+        let got_big = lib_root(&big)?;
+        if n <= PURITY_REF_MAX {
+            let want_big = r::fast_merkle_root(&big);
+            ctx.eval();
+            ensure_eq!(hex(&got_big), hex(&want_big), "fast_merkle_root of {} leaves (asked after a list of {}) differs from the definitional tree", big.len(), n);
+        }
+        ctx.class("purity:larger-list-between");
+    }
+    // n/2 leaves: at least one level fewer (for n >= 2)
+    let small = &leaves[..n / 2];
+    let got_small = lib_root(small)?;
+    if n <= PURITY_REF_MAX {
+        let want_small = r::fast_merkle_root(small);
+        ctx.eval();
+        ensure_eq!(
+            hex(&got_small),
+            hex(&want_small),
+            "fast_merkle_root of {} leaves differs from the definitional tree when asked after a list of {} leaves on the same thread (the result depends on earlier calls)",
+            small.len(),
+            if n <= PURITY_BIG_MAX { 2 * n + 1 } else { n }
+        );
+    }
+    ctx.class("purity:smaller-list-between");
+    let again = lib_root(leaves)?;
+    ctx.eval();
+    ensure_eq!(
+        hex(&again),
+        hex(want),
+        "fast_merkle_root of the same {} leaves differs from the definitional tree after calls on a longer and a shorter list (the result depends on earlier calls)",
+        n
+    );
+    ctx.class("purity:asked-again");
+    Ok(())
+}
+
 fn check_leaves(leaves: &mut Vec<[u8; 32]>, t: &mut Tape, ctx: &mut Ctx, perturb: usize) -> R {
     let n = leaves.len();
     let want = r::fast_merkle_root(leaves);
@@ -32,6 +109,7 @@ fn check_leaves(leaves: &mut Vec<[u8; 32]>, t: &mut Tape, ctx: &mut Ctx, perturb
     if n == 0 {
         return Ok(());
     }
+    purity_probe(leaves, &want, ctx)?;
     for p in 0..perturb {
         // one byte of one leaf flipped: root must change (depends on every leaf)
         let i = if p == 0 { n - 1 } else if p == 1 { 0 } else { t.below(n) };
@@ -69,32 +147,83 @@ fn check_leaves(leaves: &mut Vec<[u8; 32]>, t: &mut Tape, ctx: &mut Ctx, perturb
                 ctx.class("perturb:swap");
             }
         }
+        // one leaf overwritten with a marker-like value (all-zero = default midstate, the SHA-256
+        // initial state, all-ones) at the first / second / last / a random position: leaf contents
+        // are arbitrary, the root is still the definitional one
+        let (pos, pos_name) = match (p + t.below(4)) % 4 {
+            0 => (n - 1, "last"),
+            1 => (0, "first"),
+            2 => (1.min(n - 1), "second"),
+            _ => (t.below(n), "random"),
+        };
+        let (val, val_name) = sentinel(t.below(3));
+        let saved = leaves[pos];
+        leaves[pos] = val;
+        let got4 = lib_root(leaves)?;
+        let want4 = r::fast_merkle_root(leaves);
+        leaves[pos] = saved;
+        ctx.eval();
+        ensure_eq!(hex(&got4), hex(&want4), "root of {} leaves with leaf {} set to the {} value differs from the definitional tree", n, pos, val_name);
+        ctx.class(&format!("sentinel:{}:{}", val_name, pos_name));
+        ctx.class(if pos % 2 == 1 {
+            "sentinel-at:odd-index(right sibling)"
+        } else if pos + 1 == n {
+            "sentinel-at:unpaired-last"
+        } else {
+            "sentinel-at:even-index(left sibling)"
+        });
+        if multi_level(n) {
+            ctx.nontrivial(&("sentinel", n, pos, val_name));
+        }
     }
     Ok(())
 }
 
-/// every count 0..=N, leaves filled from the seed
+fn arr(b: &[u8]) -> [u8; 32] {
+    let mut a = [0u8; 32];
+    a.copy_from_slice(&b[..32]);
+    a
+}
+
+/// every count 0..=N, leaves filled from the seed; plus, for the same count, lists whose leaves
+/// repeat with period 1 (all equal: random value and a marker value), 2 and 4, which produce
+/// equal siblings / equal sub-trees at every level
 fn all_counts(idx: u64, seed: u64, ctx: &mut Ctx) -> R {
     let n = idx as usize;
-    let bytes = seeded_bytes(seed, idx, 32 * n + 64);
-    let mut leaves: Vec<[u8; 32]> = (0..n)
-        .map(|i| {
-            let mut a = [0u8; 32];
-            a.copy_from_slice(&bytes[32 * i..32 * i + 32]);
-            a
-        })
-        .collect();
-    let mut t = Tape::new(&bytes[32 * n..]);
+    let bytes = seeded_bytes(seed, idx, 32 * n + 128 + 128);
+    let mut leaves: Vec<[u8; 32]> = (0..n).map(|i| arr(&bytes[32 * i..])).collect();
+    let pat: Vec<[u8; 32]> = (0..4).map(|i| arr(&bytes[32 * n + 128 + 32 * i..])).collect();
+    let mut t = Tape::new(&bytes[32 * n..32 * n + 128]);
     if ctx.wants_sample("all-counts") && (n == 7 || n == 11) {
         let l0 = leaves.first().map(|l| hex(l));
         let root = hex(&r::fast_merkle_root(&leaves));
-        ctx.sample("all-counts", || json!({"leaf_count": n, "first_leaf": l0, "root": root, "perturbations": 6}));
+        ctx.sample("all-counts", || json!({"leaf_count": n, "first_leaf": l0, "root": root, "perturbations": 6,
+            "patterned_lists": ["all-equal(random)", "all-equal(marker)", "period-2", "period-4"]}));
     }
-    check_leaves(&mut leaves, &mut t, ctx, 6)
+    check_leaves(&mut leaves, &mut t, ctx, 6)?;
+    if n >= 2 {
+        let eq: Vec<[u8; 32]> = vec![pat[0]; n];
+        check_plain(&eq, "all leaves equal", ctx)?;
+        ctx.class("pattern:all-equal");
+        let (s, s_name) = sentinel(n % 3);
+        let eqs: Vec<[u8; 32]> = vec![s; n];
+        check_plain(&eqs, &format!("all leaves equal to the {} value", s_name), ctx)?;
+        ctx.class(&format!("pattern:all-equal:{}", s_name));
+        let p2: Vec<[u8; 32]> = (0..n).map(|i| pat[i % 2]).collect();
+        check_plain(&p2, "leaves a,b,a,b,...", ctx)?;
+        ctx.class("pattern:period-2");
+        let p4: Vec<[u8; 32]> = (0..n).map(|i| pat[i % 4]).collect();
+        check_plain(&p4, "leaves a,b,c,d,a,b,c,d,...", ctx)?;
+        ctx.class("pattern:period-4");
+        if multi_level(n) {
+            ctx.nontrivial(&("patterns", n));
+        }
+    }
+    Ok(())
 }
 
-/// sampled larger counts (edge-biased around powers of two, up to 70 000) and small lists with
-/// repeated leaves
+/// sampled larger counts (edge-biased around powers of two, up to 70 000) and lists with
+/// repeated leaves (equal siblings, equal sub-trees) and marker-valued leaves
 fn sampled(t: &mut Tape, ctx: &mut Ctx) -> R {
     let n = match t.below(6) {
         0 => t.below(64),
@@ -112,36 +241,116 @@ fn sampled(t: &mut Tape, ctx: &mut Ctx) -> R {
         _ => t.below(300),
     }
     .min(70_000);
-    let dup = t.chance(40);
-    let base = t.arr32();
+    // 0: all leaves distinct (index-stamped); 1: all equal; 2: a,b,a,b..; 3: every third leaf equal
+    // (never siblings); 4: a,b,c,d,a,b,c,d..; 5: equal pairs (x0,x0,x1,x1,..): equal siblings at level 0 only
+    let mode = if t.chance(112) { 1 + t.below(5) } else { 0 };
+    let base = match t.below(8) {
+        1 => sentinel(0).0,
+        2 => sentinel(1).0,
+        3 => sentinel(2).0,
+        _ => t.arr32(),
+    };
+    let stamp = |k: usize| {
+        let mut l = base;
+        l[..8].copy_from_slice(&(k as u64).to_le_bytes());
+        l[31] ^= (k as u8).wrapping_mul(7);
+        l
+    };
     let mut leaves: Vec<[u8; 32]> = Vec::with_capacity(n);
     for i in 0..n {
-        let mut l = base;
-        if !(dup && i % 3 == 1) {
-            l[..8].copy_from_slice(&(i as u64).to_le_bytes());
-            l[31] ^= (i as u8).wrapping_mul(7);
-        }
-        leaves.push(l);
+        leaves.push(match mode {
+            0 => stamp(i),
+            1 => base,
+            2 => {
+                if i % 2 == 0 {
+                    base
+                } else {
+                    stamp(1)
+                }
+            }
+            3 => {
+                if i % 3 == 1 {
+                    base
+                } else {
+                    stamp(i)
+                }
+            }
+            4 => {
+                if i % 4 == 0 {
+                    base
+                } else {
+                    stamp(i % 4)
+                }
+            }
+            _ => stamp(i / 2),
+        });
     }
     ctx.class(if n > 4200 { "sampled:>4200" } else { "sampled:<=4200" });
+    let mode_name = ["distinct", "all-equal", "period-2", "every-third-equal", "period-4", "equal-pairs"][mode];
+    ctx.class(&format!("sampled:leaves:{}", mode_name));
     if ctx.wants_sample("sampled") {
-        ctx.sample("sampled", || json!({"leaf_count": n, "repeated_leaves": dup}));
+        ctx.sample("sampled", || json!({"leaf_count": n, "leaves": mode_name}));
     }
     check_leaves(&mut leaves, t, ctx, 2)
+}
+
+const HIGH_COUNTS: [usize; 12] = [
+    (1 << 17) - 1,
+    1 << 17,
+    (1 << 17) + 1,
+    (1 << 17) + (1 << 16) + 11,
+    (1 << 18) - 1,
+    (1 << 18) + 3,
+    // thorough only
+    (1 << 19) - 1,
+    (1 << 19) + 1,
+    (1 << 19) + (1 << 17) + 5,
+    (1 << 20) - 1,
+    1 << 20,
+    (1 << 20) + 1,
+];
+
+/// counts that occupy tree levels 17..20 (the per-level array beyond what `sampled` reaches)
+fn high_levels(idx: u64, seed: u64, ctx: &mut Ctx) -> R {
+    let n = HIGH_COUNTS[(idx as usize).min(HIGH_COUNTS.len() - 1)];
+    let bytes = seeded_bytes(seed, idx, 32 + 64);
+    let base = arr(&bytes);
+    let mut leaves: Vec<[u8; 32]> = (0..n)
+        .map(|i| {
+            let mut l = base;
+            l[..8].copy_from_slice(&(i as u64).to_le_bytes());
+            l[31] ^= (i as u8).wrapping_mul(7);
+            l
+        })
+        .collect();
+    let mut t = Tape::new(&bytes[32..]);
+    ctx.class("count:>=2^17-1");
+    if ctx.wants_sample("high-levels") {
+        ctx.sample("high-levels", || json!({"leaf_count": n}));
+    }
+    check_leaves(&mut leaves, &mut t, ctx, 1)
 }
 
 pub fn property() -> Property {
     Property {
         id: "C18",
         rule: "all-counts: every leaf count 0..=1200 (quick) / 0..=6000 (thorough) enumerated completely with seeded \
-               leaf contents, each with 6 single-bit leaf flips and up to 6 swaps of two distinct leaves; sampled: \
-               tape-chosen counts up to 70000 biased to 2^k-2..2^k+2 and to counts with many set bits. Oracle: \
-               naive level-by-level tree over the harness's own SHA-256 compression function. Non-trivial = leaf \
+               leaf contents, each with 6 single-bit leaf flips, up to 6 swaps of two distinct leaves and 6 overwrites of \
+               one leaf (first / second / last / random position) with a marker-like value (all-zero, SHA-256 initial \
+               state, all-ones); for the same count also lists whose leaves repeat with period 1 (all equal: random value \
+               and a marker value), 2 and 4 (equal siblings and equal sub-trees at every level). sampled: tape-chosen \
+               counts up to 70000 biased to 2^k-2..2^k+2 and to counts with many set bits, leaves distinct or repeating \
+               (all equal, period 2 / 4, equal pairs, every third), base value random or a marker value. high_levels: 6 \
+               (quick) / 12 (thorough) counts around 2^17..2^20. purity (every case): the library is also asked for a \
+               list of 2n+1 and of n/2 leaves and then again for the same list; all three answers must equal the \
+               reference's (2n+1 only up to n=10000; reference for the side lists up to n=6100). Oracle: naive \
+               level-by-level tree over the harness's own SHA-256 compression function. Non-trivial = leaf \
                count not of the form 2^k or 2^k+1 (and >= 3), distinct by (count, perturbation, positions).",
         assumptions: &["the harness SHA-256 is checked against FIPS 180-4 vectors at start-up"],
         subs: vec![
             Sub { name: "all_counts", kind: Kind::Index { count: |t| t.pick(1201, 6001), exhaustive: true, f: all_counts } },
             Sub { name: "sampled", kind: Kind::Tape { max_len: 256, quick: 1_500, thorough: 20_000, f: sampled } },
+            Sub { name: "high_levels", kind: Kind::Index { count: |t| t.pick(6, 12), exhaustive: false, f: high_levels } },
         ],
         known: vec![],
     }
